@@ -95,3 +95,17 @@ def c13_bounded():
     for mm in re.finditer(r"^C13-FAIL (\S+) (.*)$", out, re.M):
         fails[mm.group(1)] = mm.group(2)
     return int(m.group(1)), fails
+
+
+C14_CLAUSES = ["no_panic", "ok", "exactly_one_stdout_message", "payload_is_exactly_the_length_bytes_at_buffer_in_order", "registers_sp_ccr_pc_unchanged", "memory_unchanged"]
+
+
+def c14_bounded():
+    out = _run({"KOGE29_C14": "1"}, test="native_c14_bounded")
+    m = re.search(r"^C14-BOUNDED cases=(\d+) failures=(\d+)", out, re.M)
+    if not m:
+        return None, out[-2000:]
+    fails = {}
+    for mm in re.finditer(r"^C14-FAIL (\S+) (.*)$", out, re.M):
+        fails[mm.group(1)] = mm.group(2)
+    return int(m.group(1)), fails
